@@ -5,4 +5,4 @@ Extraction "extracted/c07_model.ml"
   normalize valid barcode betti alive_count dims present rtab
   streamed_at open_after closed_by arrow_values value_at fv_from_index changes
   S_index_diagram S_diagram F_streamed F_open dim_kept
-  insertion_only ordinary_bars mult_nonneg rank restrict echelon of_idx.
+  insertion_only ordinary_bars mult_nonneg keyed_ok skip_high rank restrict echelon of_idx.
